@@ -2,6 +2,7 @@ package main
 
 import (
 	"fmt"
+	"go/token"
 	"go/types"
 	"strings"
 
@@ -192,6 +193,63 @@ func runC05(r *Run) {
 			}
 		}
 		r.atLeast("values reads in Params", n, 1)
+	})
+
+	r.rule("R6", "the application-wide SendFile cache is keyed by everything an entry is built from: compareConfig compares every SendFile field that SendFile reads while building a new entry (E4)", func() {
+		sfn := r.Fn("", "(*DefaultCtx).SendFile")
+		cmp := firstFn(r, "", "(*sendFileStore).compareConfig", "(sendFileStore).compareConfig")
+		// the entry-building region: blocks dominated by the edge taken when no cached entry matched
+		var allocBlock *ssa.BasicBlock
+		for _, in := range instrsWhereOne(sfn, func(in ssa.Instruction) bool {
+			al, ok := in.(*ssa.Alloc)
+			return ok && al.Heap && namedTypeName(al.Type().(*types.Pointer).Elem()) == "sendFileStore"
+		}) {
+			allocBlock = in.Block()
+		}
+		r.need(allocBlock != nil, "SendFile allocates a sendFileStore when nothing matched")
+		var region *ssa.BasicBlock
+		for _, br := range branchesInOne(sfn) {
+			if !constIsNil(br.Info.Const) {
+				continue
+			}
+			if sl, ok := br.nilSlot(true); ok {
+				tgt := br.If.Block().Succs[sl]
+				if len(tgt.Preds) == 1 && dom(tgt, allocBlock) && (region == nil || dom(region, tgt)) {
+					region = tgt
+				}
+			}
+		}
+		r.need(region != nil, "the entry is built under `no cached handler found`")
+		used := map[string]string{}
+		for _, fr := range fieldRefsOne(sfn) {
+			if fr.Write || !strings.HasPrefix(fr.Name, "SendFile.") || !dom(region, fr.Instr.Block()) {
+				continue
+			}
+			if _, ok := used[fr.Name]; !ok {
+				used[fr.Name] = r.pos(fr.Instr)
+			}
+		}
+		r.atLeast("SendFile fields an entry is built from", len(used), 4)
+		compared := map[string]bool{}
+		wholeStruct := false
+		for _, b := range cmp.Blocks {
+			for _, in := range b.Instrs {
+				bo, ok := in.(*ssa.BinOp)
+				if !ok || (bo.Op != token.EQL && bo.Op != token.NEQ) {
+					continue
+				}
+				fx, fy := fieldOfValue(stripValue(bo.X)), fieldOfValue(stripValue(bo.Y))
+				if fx != nil && fy != nil && fx == fy && fieldOwner(fx) == "SendFile" {
+					compared["SendFile."+fx.Name()] = true
+				}
+				if namedTypeName(bo.X.Type()) == "SendFile" {
+					wholeStruct = true
+				}
+			}
+		}
+		for _, n := range sortedKeys(used) {
+			r.check(wholeStruct || compared[n], "compareConfig:"+n, used[n], "compared by compareConfig", n+" shapes a cached SendFile entry (read at "+used[n]+" while the entry is built) but compareConfig does not compare it: two SendFile call sites that differ only in this option share whichever entry was created first, so the response depends on which route was requested earlier")
+		}
 	})
 }
 
